@@ -748,6 +748,7 @@ cleanup:
         free((char *)value);
     }
     if (rc) {
+        lyd_ctx_forget_subtree((struct lyd_ctx *)lydctx, *node);
         lyd_free_tree(*node);
         *node = NULL;
     }
@@ -813,6 +814,7 @@ cleanup:
         LOG_LOCBACK(0, 1);
     }
     if (rc && (!(lydctx->val_opts & LYD_VALIDATE_MULTI_ERROR) || (rc != LY_EVALID))) {
+        lyd_ctx_forget_subtree((struct lyd_ctx *)lydctx, *node);
         lyd_free_tree(*node);
         *node = NULL;
     }
@@ -991,6 +993,7 @@ cleanup:
     free(val);
     lyd_free_siblings(child);
     if (rc && (!(lydctx->val_opts & LYD_VALIDATE_MULTI_ERROR) || (rc != LY_EVALID))) {
+        lyd_ctx_forget_subtree((struct lyd_ctx *)lydctx, *node);
         lyd_free_tree(*node);
         *node = NULL;
     }
@@ -1055,14 +1058,15 @@ lydxml_subtree_r(struct lyd_xml_ctx *lydctx, struct lyd_node *parent, struct lyd
 
         /* validate the value */
         r = lyd_parser_notif_eventtime_validate(node);
-        LY_CHECK_ERR_GOTO(r, rc = r; lyd_free_tree(node), cleanup);
+        LY_CHECK_ERR_GOTO(r, rc = r; lyd_ctx_forget_subtree((struct lyd_ctx *)lydctx, node); lyd_free_tree(node), cleanup);
 
         /* parser next */
         r = lyxml_ctx_next(xmlctx);
-        LY_CHECK_ERR_GOTO(r, rc = r; lyd_free_tree(node), cleanup);
+        LY_CHECK_ERR_GOTO(r, rc = r; lyd_ctx_forget_subtree((struct lyd_ctx *)lydctx, node); lyd_free_tree(node), cleanup);
         if (xmlctx->status != LYXML_ELEM_CLOSE) {
             LOGVAL(ctx, LYVE_DATA, "Unexpected notification \"eventTime\" node children.");
             rc = LY_EVALID;
+            lyd_ctx_forget_subtree((struct lyd_ctx *)lydctx, node);
             lyd_free_tree(node);
             goto cleanup;
         }
@@ -1124,6 +1128,7 @@ lydxml_subtree_r(struct lyd_xml_ctx *lydctx, struct lyd_node *parent, struct lyd
                 (ly_err_last(ctx)->vecode == LYVE_SYNTAX) || (xmlctx->status != LYXML_ELEM_CLOSE)) {
             /* fatal error (also when the XML parser was not left at the end of the element, e.g. by an error in the
              * attributes of a descendant), the node kept for the multi-error validation is not going to be inserted */
+            lyd_ctx_forget_subtree((struct lyd_ctx *)lydctx, node);
             lyd_free_tree(node);
             goto cleanup;
         }
@@ -1133,7 +1138,7 @@ node_parsed:
     if (node && snode) {
         /* add/correct flags */
         r = lyd_parser_set_data_flags(node, &meta, (struct lyd_ctx *)lydctx, ext);
-        LY_CHECK_ERR_GOTO(r, rc = r; lyd_free_tree(node), cleanup);
+        LY_CHECK_ERR_GOTO(r, rc = r; lyd_ctx_forget_subtree((struct lyd_ctx *)lydctx, node); lyd_free_tree(node), cleanup);
 
         if (!(lydctx->parse_opts & LYD_PARSE_ONLY)) {
             /* store for ext instance node validation, if needed */
@@ -1146,7 +1151,7 @@ node_parsed:
     assert(xmlctx->status == LYXML_ELEM_CLOSE);
     if (!parse_subtree) {
         r = lyxml_ctx_next(xmlctx);
-        LY_CHECK_ERR_GOTO(r, rc = r; lyd_free_tree(node), cleanup);
+        LY_CHECK_ERR_GOTO(r, rc = r; lyd_ctx_forget_subtree((struct lyd_ctx *)lydctx, node); lyd_free_tree(node), cleanup);
     }
 
     LY_CHECK_GOTO(!node, cleanup);
@@ -1165,7 +1170,7 @@ node_parsed:
         lyd_insert_after(insert_anchor, node);
     } else if (ext) {
         r = lyplg_ext_insert(parent, node);
-        LY_CHECK_ERR_GOTO(r, rc = r; lyd_free_tree(node), cleanup);
+        LY_CHECK_ERR_GOTO(r, rc = r; lyd_ctx_forget_subtree((struct lyd_ctx *)lydctx, node); lyd_free_tree(node), cleanup);
     } else {
         lyd_insert_node(parent, first_p, node,
                 lydctx->parse_opts & LYD_PARSE_ORDERED ? LYD_INSERT_NODE_LAST : LYD_INSERT_NODE_DEFAULT);
